@@ -89,9 +89,9 @@ static void pair_case(uint64_t idx, void *ctx)
 /* ---- well-formed versions: num(.num){0..2} [word [num]] with the word attached directly */
 static const char *NUMS[] = { "1", "2", "10", "2147483648", "007", "0", "9" };
 static int g_nn = 3;
-static const char *WORDS[] = { "", "snap", "pre", "alpha", "beta", "rc", "foo", "SNAP" };
+static const char *WORDS[] = { "", "snap", "pre", "alpha", "beta", "rc", "foo", "SNAP", "b", "p" };     /* "b", "p": ordinary words that are prefixes of pre-release words */
 #define NNUM 7
-#define NWORD 8
+#define NWORD 10
 typedef struct { int nc; int c[3]; int w; int wn; } wf_t;       /* wn: -1 none, else index into NUMS */
 static uint64_t WF_COUNT;
 static void wf_decode(uint64_t i, wf_t *v)
@@ -132,6 +132,10 @@ static void wf_case(uint64_t idx, void *ctx)
     else if (x.nc == y.nc && firstdiff < 0 && (x.w == 0) != (y.w == 0)) {
         int w = x.w ? x.w : y.w, below = rank(w) <= 4;           /* snap/pre/alpha/beta below the bare version, anything else above */
         expect = x.w ? (below ? -1 : 1) : (below ? 1 : -1); law = "pre-release suffix below the bare version, any other suffix above";
+    }
+    else if (x.nc == y.nc && firstdiff < 0 && x.w && y.w && (rank(x.w) <= 4) != (rank(y.w) <= 4) && rank(x.w) != 5 && rank(y.w) != 5) {
+        /* pre-release suffix < bare version < ordinary suffix: an order has to put the first below the third as well */
+        expect = rank(x.w) <= 4 ? -1 : 1; law = "pre-release suffix below an ordinary suffix (both sides of the bare version)";
     }
     else if (x.nc != y.nc && firstdiff < 0 && x.w == 0 && y.w == 0) { expect = x.nc < y.nc ? -1 : 1; law = "a version ranks below a longer one that adds numeric components"; }
     else if (x.nc == y.nc && firstdiff < 0 && samesuffix) { expect = 0; law = "equal versions compare equal"; }
